@@ -149,11 +149,47 @@ def fixed_streams():
     Xc = RecordDescriptor("t/x", [("string", "astringb")])
     Z = RecordDescriptor("s/z", [])
     kw = dict(_generated=GEN)
-    return [
+    from flow.record import GroupedRecord
+
+    # grouped records with the same group name and the same flattened fields whose MEMBER types differ
+    E1 = RecordDescriptor("fs/entry", [("string", "path"), ("varint", "size")])
+    E2 = RecordDescriptor("fs/ntfs/entry", [("string", "path"), ("varint", "size")])
+    M = RecordDescriptor("hit/meta", [("string", "rule")])
+    # type names that differ only in "/" versus "_" with identical fields (their generated classes have the same name)
+    U1 = RecordDescriptor("browser/chrome_history", [("string", "url"), ("varint", "n")])
+    U2 = RecordDescriptor("browser_chrome/history", [("string", "url"), ("varint", "n")])
+
+    def G(e, i):
+        return GroupedRecord("grouped/hit", [e("/p%d" % i, i, **kw), M("r%d" % i, **kw)])
+
+    extra = [
+        [G(E1, 1), G(E2, 2), G(E1, 3), G(E2, 4)],
+        [G(E2, 1), E1("/q", 9, **kw), G(E1, 2)],
+        [U1("u1", 1, **kw), U2("u2", 2, **kw), U1("u3", 3, **kw), U2("u4", 4, **kw)],
+        [U2("u1", 1, **kw), U1("u2", 2, **kw)],
+    ]
+    return extra + [
         [A("one", 1, **kw), A2(2, **kw), A("three", 3, **kw), A2(4, **kw), A3("five", 5, "m", **kw), A("six", 6, **kw)],
         [A2(1, **kw), A("two", 2, **kw), A2(3, **kw), Z(**kw), A3("x", 4, "y", **kw), A3("x", 5, "z", **kw)],
         [X("1", "2", **kw), Xc("3", **kw), X("4", "5", **kw), Xc("6", **kw)],
     ]
+
+
+def fixed_streams_intent():
+    """type names the records of fixed_streams() were CREATED with (for a grouped record: its members'), written down
+    by hand: a record object that no longer carries the descriptor it was created with cannot vouch for itself"""
+    g1, g2 = ["fs/entry", "hit/meta"], ["fs/ntfs/entry", "hit/meta"]
+    u1, u2 = ["browser/chrome_history"], ["browser_chrome/history"]
+    a, x, z = ["s/a"], ["t/x"], ["s/z"]
+    return [[g1, g2, g1, g2], [g2, ["fs/entry"], g1], [u1, u2, u1, u2], [u2, u1], [a, a, a, a, a, a], [a, a, a, z, a, a], [x, x, x, x]]
+
+
+def names_of(rec):
+    from flow.record import GroupedRecord
+
+    if isinstance(rec, GroupedRecord):
+        return [m._desc.name for m in rec.records]
+    return [rec._desc.name]
 
 
 def random_values(T, rnd, n):
